@@ -208,6 +208,7 @@ func (t *ReuseConnTransport) Close() error {
 		return nil
 	}
 	t.closed = true
+	verifhook.Point("reuse.tclose.locked")
 	for c := range t.conns {
 		delete(t.conns, c)
 		delete(t.idleConns, c)
@@ -290,6 +291,7 @@ func (c *reusableConn) closeWithErr(err error) {
 		err = net.ErrClosed
 	}
 	c.closeOnce.Do(func() {
+		verifhook.Point("reuse.conn.closing")
 		c.t.m.Lock()
 		delete(c.t.conns, c)
 		delete(c.t.idleConns, c)
